@@ -19,7 +19,7 @@ Print Assumptions C05_micro_held_is_charged_all.
 
 (** (C05 at every micro state: keys and charges correspond one to one, up to the one command in flight): under the
    same guard, distinct stored keys carry distinct ids, and the expiry index never lists the id of a put that is still
-   pending or admitted but not yet stored - so the sweeper can never release the charge of a key that is about to be inserted *)
+   pending or let in but not yet stored - so the sweeper can never release the charge of a key that is about to be inserted *)
 Theorem C05_micro_store_ids_distinct_all :
   forall cfg evs k1 k2 e1 e2, c_debug cfg = true ->
   let ms := mrun cfg evs in
@@ -30,7 +30,7 @@ Print Assumptions C05_micro_store_ids_distinct_all.
 
 (** (why the insert after admission finds its charge): under the same guard, the expiry index (as the sweeper reads it)
    only lists ids that have been used - below the id counter, not carried by any pending put, and not the id the worker has
-   admitted but not yet stored - so a sweep can never release the charge of a key that is about to be inserted *)
+   let in but not yet stored - so a sweep can never release the charge of a key that is about to be inserted *)
 Theorem C05_micro_index_lists_used_ids_all :
   forall cfg evs id, c_debug cfg = true ->
   let ms := mrun cfg evs in
@@ -75,7 +75,7 @@ Print Assumptions C05_micro_ids_flow_all.
 
 (** (C05, "no weight stays charged for a key that is gone", at every state of every micro schedule, no condition
    on the events): before shutdown() is called and while the worker has not panicked, every charged id is the id of the
-   stored entry of its own key - except the single id the worker has in flight at that instant (a put admitted and
+   stored entry of its own key - except the single id the worker has in flight at that instant (a put let in and
    charged but not yet inserted, a Delete whose entry is removed but whose charge is not yet released), and then nobody
    else occupies that key *)
 Theorem C05_micro_charged_is_stored_all :
